@@ -895,12 +895,12 @@ func (ev *Eval) callExpr(x *ECall) Val {
 		old := o.eval(x.Args[0])
 		return Val{Term: "(= " + ev.term(cur) + " " + o.term(old) + ")", T: boolT}
 	case "eqseq":
-		// eqseq(a, b): same length and same elements (in range)
-		a, b := ev.eval(x.Args[0]), ev.eval(x.Args[1])
-		la, lb := ev.seqLenOf(a), ev.seqLenOf(b)
-		ea := ev.indexVal(a, Val{Term: "q_eq"})
-		eb := ev.indexVal(b, Val{Term: "q_eq"})
-		return Val{Term: "(and (= " + la + " " + lb + ") (forall ((q_eq Int)) (=> (and (<= 0 q_eq) (< q_eq " + la + ")) (= " + ev.term(ea) + " " + ev.term(eb) + "))))", T: boolT}
+		// eqseq(a, b): same length and same elements (in range); desugared to a quantifier
+		q := &EQuant{Forall: true, Vars: []string{"zzq"}, Sorts: []string{""},
+			Body: &EBin{"==>", &EBin{"&&", &EBin{"<=", &ENum{big.NewInt(0)}, &EName{"zzq"}}, &EBin{"<", &EName{"zzq"}, &ECall{"len", []Expr{x.Args[0]}}}},
+				&EBin{"==", &EIdx{x.Args[0], &EName{"zzq"}}, &EIdx{x.Args[1], &EName{"zzq"}}}}}
+		lenEq := &EBin{"==", &ECall{"len", []Expr{x.Args[0]}}, &ECall{"len", []Expr{x.Args[1]}}}
+		return ev.eval(&EBin{"&&", lenEq, q})
 	case "alloc":
 		// alloc(p): p is an allocated (non-nil) object of its struct type in the current state
 		v := ev.eval(x.Args[0])
